@@ -1,8 +1,978 @@
+//! C10 — variadic collections (`variadics::variadic_collections`) behave as sets / multisets of
+//! tuples. The real `VariadicHashSet`, `VariadicCountedHashSet` and `VariadicColumnMultiset` are
+//! driven through histories of insert / extend / drain / from_iter / clone; after every operation
+//! everything they report (`len`, `is_empty`, `contains`, `get`, `iter`, `into_iter`, `==`) is
+//! compared with a `BTreeMap<tuple, count>` model.
+
+use std::collections::BTreeMap;
+use std::hash::{BuildHasher, BuildHasherDefault, DefaultHasher, Hash, Hasher, RandomState};
+
+use variadics::variadic_collections::{
+    VariadicCollection, VariadicColumnMultiset, VariadicCountedHashSet, VariadicHashSet,
+};
+use variadics::{PartialEqVariadic, VariadicExt, var_expr, var_type};
+use vcommon::{Args, Reporter, Rng, Tier, Value, catch, hash_of, json};
+
+// ---------------------------------------------------------------------------------------------
+// model side
+
+/// A tuple of the model: up to three columns, unused columns are 0.
+type Row = [u16; 3];
+/// tuple -> multiplicity (never 0).
+type Model = BTreeMap<Row, usize>;
+
+fn model_len(m: &Model) -> usize {
+    m.values().sum()
+}
+fn model_add(m: &mut Model, r: Row, is_set: bool) {
+    let e = m.entry(r).or_insert(0);
+    if is_set {
+        *e = 1;
+    } else {
+        *e += 1;
+    }
+}
+fn multiset(rows: impl IntoIterator<Item = Row>) -> Model {
+    let mut m = Model::new();
+    for r in rows {
+        *m.entry(r).or_insert(0) += 1;
+    }
+    m
+}
+/// `rows` (any order) is exactly the multiset `m`.
+fn same_multiset(rows: &mut Vec<Row>, m: &Model) -> bool {
+    rows.sort_unstable();
+    let mut i = 0;
+    for (r, n) in m {
+        for _ in 0..*n {
+            if i >= rows.len() || rows[i] != *r {
+                return false;
+            }
+            i += 1;
+        }
+    }
+    i == rows.len()
+}
+fn model_list(m: &Model) -> Vec<Row> {
+    let mut v = vec![];
+    for (r, n) in m {
+        for _ in 0..*n {
+            v.push(*r);
+        }
+    }
+    v
+}
+
+// ---------------------------------------------------------------------------------------------
+// schemas
+
+trait Sch: VariadicExt + PartialEqVariadic + Eq + Hash + Clone + 'static {
+    const ARITY: usize;
+    const NAME: &'static str;
+    fn mk(r: Row) -> Self;
+    fn row(&self) -> Row;
+    fn row_ref(r: Self::AsRefVar<'_>) -> Row;
+    /// column value for abstract value `v` of column `col` (u16 columns use both bytes)
+    fn val(col: usize, v: usize) -> u16;
+}
+
+type S1 = var_type!(u8);
+type S2 = var_type!(u8, u8);
+type S3 = var_type!(u8, u16, u8);
+
+impl Sch for S1 {
+    const ARITY: usize = 1;
+    const NAME: &'static str = "(u8,)";
+    fn mk(r: Row) -> Self {
+        var_expr!(r[0] as u8)
+    }
+    fn row(&self) -> Row {
+        let (a, ()) = self;
+        [*a as u16, 0, 0]
+    }
+    fn row_ref(r: Self::AsRefVar<'_>) -> Row {
+        let (a, ()) = r;
+        [*a as u16, 0, 0]
+    }
+    fn val(_col: usize, v: usize) -> u16 {
+        v as u16
+    }
+}
+impl Sch for S2 {
+    const ARITY: usize = 2;
+    const NAME: &'static str = "(u8,u8)";
+    fn mk(r: Row) -> Self {
+        var_expr!(r[0] as u8, r[1] as u8)
+    }
+    fn row(&self) -> Row {
+        let (a, (b, ())) = self;
+        [*a as u16, *b as u16, 0]
+    }
+    fn row_ref(r: Self::AsRefVar<'_>) -> Row {
+        let (a, (b, ())) = r;
+        [*a as u16, *b as u16, 0]
+    }
+    fn val(_col: usize, v: usize) -> u16 {
+        v as u16
+    }
+}
+impl Sch for S3 {
+    const ARITY: usize = 3;
+    const NAME: &'static str = "(u8,u16,u8)";
+    fn mk(r: Row) -> Self {
+        var_expr!(r[0] as u8, r[1], r[2] as u8)
+    }
+    fn row(&self) -> Row {
+        let (a, (b, (c, ()))) = self;
+        [*a as u16, *b, *c as u16]
+    }
+    fn row_ref(r: Self::AsRefVar<'_>) -> Row {
+        let (a, (b, (c, ()))) = r;
+        [*a as u16, *b, *c as u16]
+    }
+    fn val(col: usize, v: usize) -> u16 {
+        if col == 1 { (v as u16) * 257 } else { v as u16 }
+    }
+}
+
+/// All tuples over abstract values 0..k per column.
+fn domain<S: Sch>(k: usize) -> Vec<Row> {
+    let mut out = vec![];
+    let n = k.pow(S::ARITY as u32);
+    for code in 0..n {
+        let mut c = code;
+        let mut r = [0u16; 3];
+        for col in 0..S::ARITY {
+            r[col] = S::val(col, c % k);
+            c /= k;
+        }
+        out.push(r);
+    }
+    out
+}
+
+/// Injective numbering of distinct tuples for the growth sweep (index < 256).
+fn nth_row<S: Sch>(i: usize) -> Row {
+    match S::ARITY {
+        1 => [i as u16, 0, 0],
+        2 => [(i % 16) as u16, (i / 16) as u16, 0],
+        _ => [(i % 5) as u16, (i as u16).wrapping_mul(263), (i % 7) as u16],
+    }
+}
+
+// ---------------------------------------------------------------------------------------------
+// hashers
+
+/// Hostile hasher: the hash depends on the first hashed byte only, so all tuples sharing the first
+/// column collide completely (same bucket, same control tag) and lookups must compare whole tuples.
+#[derive(Default, Clone)]
+struct FirstByte {
+    h: u64,
+    seen: bool,
+}
+impl Hasher for FirstByte {
+    fn finish(&self) -> u64 {
+        self.h
+    }
+    fn write(&mut self, bytes: &[u8]) {
+        if !self.seen && !bytes.is_empty() {
+            self.seen = true;
+            self.h = (bytes[0] as u64 + 1).wrapping_mul(0x9E37_79B9_7F4A_7C15);
+        }
+    }
+}
+type HFirst = BuildHasherDefault<FirstByte>;
+type HSip = BuildHasherDefault<DefaultHasher>;
+
+trait HName {
+    const H: &'static str;
+}
+impl HName for RandomState {
+    const H: &'static str = "RandomState";
+}
+impl HName for HSip {
+    const H: &'static str = "BuildHasherDefault<DefaultHasher>";
+}
+impl HName for HFirst {
+    const H: &'static str = "first-byte-only (colliding)";
+}
+
+// ---------------------------------------------------------------------------------------------
+// collections behind one interface
+
+enum Lookup {
+    /// the collection has no `get`
+    NotAvailable,
+    Absent,
+    Present { key: Row, count: usize },
+}
+
+trait Coll<S: Sch>: VariadicCollection<Schema = S> + Clone + Default + IntoIterator<Item = S> {
+    const NAME: &'static str;
+    const HASHER: &'static str;
+    const IS_SET: bool;
+    fn lookup(&self, s: &S) -> Lookup;
+    fn eq_(&self, o: &Self) -> Option<bool>;
+    fn from_rows(v: Vec<S>) -> Self;
+    fn with_cap(n: usize) -> Self;
+}
+
+impl<S: Sch, H: BuildHasher + Default + Clone + HName> Coll<S> for VariadicHashSet<S, H>
+where
+    for<'a> S::AsRefVar<'a>: Hash,
+{
+    const NAME: &'static str = "VariadicHashSet";
+    const HASHER: &'static str = H::H;
+    const IS_SET: bool = true;
+    fn lookup(&self, s: &S) -> Lookup {
+        match self.get(s.as_ref_var()) {
+            None => Lookup::Absent,
+            Some(k) => Lookup::Present { key: k.row(), count: 1 },
+        }
+    }
+    fn eq_(&self, o: &Self) -> Option<bool> {
+        Some(self == o)
+    }
+    fn from_rows(v: Vec<S>) -> Self {
+        v.into_iter().collect()
+    }
+    fn with_cap(n: usize) -> Self {
+        Self::with_capacity_and_hasher(n, H::default())
+    }
+}
+
+impl<S: Sch, H: BuildHasher + Default + Clone + HName> Coll<S> for VariadicCountedHashSet<S, H>
+where
+    for<'a> S::AsRefVar<'a>: Hash,
+{
+    const NAME: &'static str = "VariadicCountedHashSet";
+    const HASHER: &'static str = H::H;
+    const IS_SET: bool = false;
+    fn lookup(&self, s: &S) -> Lookup {
+        match self.get(s.as_ref_var()) {
+            None => Lookup::Absent,
+            Some((k, n)) => Lookup::Present { key: k.row(), count: *n },
+        }
+    }
+    fn eq_(&self, o: &Self) -> Option<bool> {
+        Some(self == o)
+    }
+    fn from_rows(v: Vec<S>) -> Self {
+        v.into_iter().collect()
+    }
+    fn with_cap(n: usize) -> Self {
+        Self::with_capacity_and_hasher(n, H::default())
+    }
+}
+
+impl<S: Sch> Coll<S> for VariadicColumnMultiset<S>
+where
+    for<'a> S::AsRefVar<'a>: Hash,
+    S::IntoVec: Clone,
+{
+    const NAME: &'static str = "VariadicColumnMultiset";
+    const HASHER: &'static str = "-";
+    const IS_SET: bool = false;
+    fn lookup(&self, _s: &S) -> Lookup {
+        Lookup::NotAvailable
+    }
+    fn eq_(&self, _o: &Self) -> Option<bool> {
+        None
+    }
+    fn from_rows(v: Vec<S>) -> Self {
+        // no FromIterator: the documented way is Default + extend
+        let mut c = Self::default();
+        c.extend(v);
+        c
+    }
+    fn with_cap(_n: usize) -> Self {
+        Self::default()
+    }
+}
+
+// ---------------------------------------------------------------------------------------------
+// histories
+
+#[derive(Clone, Debug, Hash, PartialEq, Eq)]
+enum Op {
+    Insert(Row),
+    /// `exact` = iterator with an exact size hint (reserve path); otherwise lower bound 0
+    Extend(Vec<Row>, bool),
+    Drain,
+    /// take this many items from `drain()` and drop the iterator
+    DrainPartial(usize),
+    FromIter(Vec<Row>),
+    /// replace by `with_capacity_and_hasher(n)` (hash collections) / `default()`
+    NewWithCap(usize),
+    Clone,
+}
+
+impl Op {
+    fn kind(&self) -> &'static str {
+        match self {
+            Op::Insert(_) => "insert",
+            Op::Extend(..) => "extend",
+            Op::Drain => "drain",
+            Op::DrainPartial(_) => "drain-partial",
+            Op::FromIter(_) => "from_iter",
+            Op::NewWithCap(_) => "with_capacity",
+            Op::Clone => "clone",
+        }
+    }
+    fn to_json(&self, arity: usize) -> Value {
+        let r = |x: &Row| json!(x[..arity]);
+        match self {
+            Op::Insert(x) => json!({"op":"insert","row":r(x)}),
+            Op::Extend(v, e) => json!({"op":"extend","rows":v.iter().map(r).collect::<Vec<_>>(),"exact_hint":e}),
+            Op::Drain => json!({"op":"drain"}),
+            Op::DrainPartial(k) => json!({"op":"drain-partial","take":k}),
+            Op::FromIter(v) => json!({"op":"from_iter","rows":v.iter().map(r).collect::<Vec<_>>()}),
+            Op::NewWithCap(n) => json!({"op":"with_capacity","n":n}),
+            Op::Clone => json!({"op":"clone"}),
+        }
+    }
+    fn from_json(v: &Value) -> Op {
+        let row = |x: &Value| -> Row {
+            let mut r = [0u16; 3];
+            for (i, c) in x.as_array().expect("row").iter().enumerate() {
+                r[i] = c.as_u64().expect("col") as u16;
+            }
+            r
+        };
+        let rows = |x: &Value| -> Vec<Row> { x.as_array().expect("rows").iter().map(row).collect() };
+        match v["op"].as_str().expect("op") {
+            "insert" => Op::Insert(row(&v["row"])),
+            "extend" => Op::Extend(rows(&v["rows"]), v["exact_hint"].as_bool().unwrap_or(true)),
+            "drain" => Op::Drain,
+            "drain-partial" => Op::DrainPartial(v["take"].as_u64().unwrap_or(0) as usize),
+            "from_iter" => Op::FromIter(rows(&v["rows"])),
+            "with_capacity" => Op::NewWithCap(v["n"].as_u64().unwrap_or(0) as usize),
+            "clone" => Op::Clone,
+            o => panic!("unknown op {o}"),
+        }
+    }
+}
+
+/// A divergence between the real collection and the model: (priority, kind, description).
+type Div = (u8, &'static str, String);
+
+struct St<S: Sch, C: Coll<S>> {
+    c: C,
+    m: Model,
+    dup_offered: bool,
+    max_distinct: usize,
+    _s: std::marker::PhantomData<S>,
+}
+
+impl<S: Sch, C: Coll<S>> Clone for St<S, C> {
+    fn clone(&self) -> Self {
+        St { c: self.c.clone(), m: self.m.clone(), dup_offered: self.dup_offered, max_distinct: self.max_distinct, _s: Default::default() }
+    }
+}
+
+impl<S: Sch, C: Coll<S>> St<S, C> {
+    fn new() -> Self {
+        St { c: C::default(), m: Model::new(), dup_offered: false, max_distinct: 0, _s: Default::default() }
+    }
+
+    fn note_offer(&mut self, r: &Row) {
+        if self.m.contains_key(r) {
+            self.dup_offered = true;
+        }
+    }
+
+    /// Apply one operation to the real collection and to the model; judge what the operation itself
+    /// returned.
+    fn apply(&mut self, op: &Op, divs: &mut Vec<Div>) {
+        match op {
+            Op::Insert(r) => {
+                self.note_offer(r);
+                let was = self.m.contains_key(r);
+                let got = catch(|| self.c.insert(S::mk(*r)));
+                model_add(&mut self.m, *r, C::IS_SET);
+                match got {
+                    Err(p) => divs.push((0, "panic-in-insert", p)),
+                    Ok(b) => {
+                        let want = if C::IS_SET { !was } else { true };
+                        if b != want {
+                            divs.push((1, "insert-return-wrong", format!("insert({r:?}) returned {b}, tuple was {} before", if was { "present" } else { "absent" })));
+                        }
+                    }
+                }
+            }
+            Op::Extend(v, exact) => {
+                for r in v {
+                    self.note_offer(r);
+                    model_add(&mut self.m, *r, C::IS_SET);
+                }
+                let items: Vec<S> = v.iter().map(|r| S::mk(*r)).collect();
+                let got = if *exact { catch(|| self.c.extend(items)) } else { catch(|| self.c.extend(items.into_iter().filter(|_| true))) };
+                if let Err(p) = got {
+                    divs.push((0, "panic-in-extend", p));
+                }
+            }
+            Op::Drain => {
+                let got = catch(|| self.c.drain().map(|s| s.row()).collect::<Vec<Row>>());
+                let want = std::mem::take(&mut self.m);
+                match got {
+                    Err(p) => divs.push((0, "panic-in-drain", p)),
+                    Ok(items) => {
+                        let gm = multiset(items);
+                        if gm != want {
+                            divs.push((1, "drain-items-differ", format!("drain() yielded {gm:?}, collection held {want:?}")));
+                        }
+                    }
+                }
+            }
+            Op::DrainPartial(k) => {
+                let got = catch(|| self.c.drain().take(*k).map(|s| s.row()).collect::<Vec<Row>>());
+                let want = std::mem::take(&mut self.m);
+                match got {
+                    Err(p) => divs.push((0, "panic-in-drain", p)),
+                    Ok(items) => {
+                        let gm = multiset(items);
+                        let sub = gm.iter().all(|(r, n)| want.get(r).is_some_and(|w| w >= n));
+                        if !sub || model_len(&gm) != (*k).min(model_len(&want)) {
+                            divs.push((1, "drain-items-differ", format!("first {k} of drain() yielded {gm:?}, collection held {want:?}")));
+                        }
+                    }
+                }
+            }
+            Op::FromIter(v) => {
+                self.m = Model::new();
+                for r in v {
+                    self.note_offer(r);
+                    model_add(&mut self.m, *r, C::IS_SET);
+                }
+                let items: Vec<S> = v.iter().map(|r| S::mk(*r)).collect();
+                match catch(|| C::from_rows(items)) {
+                    Err(p) => divs.push((0, "panic-in-from_iter", p)),
+                    Ok(c) => self.c = c,
+                }
+            }
+            Op::NewWithCap(n) => {
+                self.m = Model::new();
+                match catch(|| C::with_cap(*n)) {
+                    Err(p) => divs.push((0, "panic-in-with_capacity", p)),
+                    Ok(c) => self.c = c,
+                }
+            }
+            Op::Clone => match catch(|| self.c.clone()) {
+                Err(p) => divs.push((0, "panic-in-clone", p)),
+                Ok(c2) => {
+                    // continue with the clone; the original must still be intact (judged here)
+                    let old = std::mem::replace(&mut self.c, c2);
+                    if let Ok(rows) = catch(|| old.iter().map(|r| S::row_ref(r)).collect::<Vec<Row>>()) {
+                        let gm = multiset(rows);
+                        if gm != self.m {
+                            divs.push((2, "original-differs-after-clone", format!("{gm:?} vs model {:?}", self.m)));
+                        }
+                    }
+                    if let Some(false) = catch(|| old.eq_(&self.c)).unwrap_or(None) {
+                        divs.push((12, "eq-false-for-equal", "clone != original".into()));
+                    }
+                }
+            },
+        }
+        self.max_distinct = self.max_distinct.max(self.m.len());
+    }
+
+    /// Everything the collection reports, against the model. Returns the number of judgements.
+    fn observe(&self, probe: &[Row], rng: &mut Rng, deep_eq: bool, divs: &mut Vec<Div>) -> u64 {
+        let c = &self.c;
+        let m = &self.m;
+        let mut evals = 0u64;
+        let want_len = model_len(m);
+        // len / is_empty
+        evals += 2;
+        match catch(|| (c.len(), c.is_empty())) {
+            Err(p) => divs.push((0, "panic-in-len", p)),
+            Ok((l, e)) => {
+                if l != want_len {
+                    divs.push((5, "len-wrong", format!("len()={l}, model holds {want_len}")));
+                }
+                if e != (want_len == 0) {
+                    divs.push((6, "is_empty-wrong", format!("is_empty()={e}, model holds {want_len}")));
+                }
+            }
+        }
+        // contains / get for every probe tuple (the whole domain of the history)
+        for r in probe {
+            let s = S::mk(*r);
+            let want = m.get(r).copied();
+            evals += 2;
+            match catch(|| (c.contains(s.as_ref_var()), c.lookup(&s))) {
+                Err(p) => divs.push((0, "panic-in-contains-or-get", p)),
+                Ok((has, lk)) => {
+                    match (has, want) {
+                        (false, Some(n)) => divs.push((2, "contains-false-for-present", format!("contains({r:?})=false, model holds it x{n}"))),
+                        (true, None) => divs.push((3, "contains-true-for-absent", format!("contains({r:?})=true, never inserted / drained"))),
+                        _ => {}
+                    }
+                    match (lk, want) {
+                        (Lookup::NotAvailable, _) => {}
+                        (Lookup::Absent, None) => {}
+                        (Lookup::Absent, Some(n)) => divs.push((2, "contains-false-for-present", format!("get({r:?})=None, model holds it x{n}"))),
+                        (Lookup::Present { .. }, None) => divs.push((3, "contains-true-for-absent", format!("get({r:?}) is Some, tuple absent in model"))),
+                        (Lookup::Present { key, count }, Some(n)) => {
+                            if key != *r {
+                                divs.push((4, "get-returns-other-tuple", format!("get({r:?}) returned {key:?}")));
+                            } else if count != n {
+                                divs.push((4, "get-count-wrong", format!("get({r:?}) count {count}, model {n}")));
+                            }
+                        }
+                    }
+                }
+            }
+        }
+        // iter
+        evals += 1;
+        match catch(|| c.iter().map(|r| S::row_ref(r)).collect::<Vec<Row>>()) {
+            Err(p) => divs.push((0, "panic-in-iter", p)),
+            Ok(mut rows) => {
+                if !same_multiset(&mut rows, m) {
+                    divs.push((7, "iter-multiset-differs", format!("iter() yields {:?}, model {m:?}", multiset(rows))));
+                }
+            }
+        }
+        // into_iter of a clone
+        evals += 1;
+        match catch(|| c.clone().into_iter().map(|s| s.row()).collect::<Vec<Row>>()) {
+            Err(p) => divs.push((0, "panic-in-into_iter", p)),
+            Ok(mut rows) => {
+                if !same_multiset(&mut rows, m) {
+                    divs.push((8, "into_iter-multiset-differs", format!("into_iter() yields {:?}, model {m:?}", multiset(rows))));
+                }
+            }
+        }
+        // == against a second instance built from a permutation of the same tuples, and against
+        // near misses (one more, one fewer, same length but different content)
+        if deep_eq && C::NAME != "VariadicColumnMultiset" {
+            let mut list = model_list(m);
+            rng.shuffle(&mut list);
+            // The second instance is always filled by single `insert`s (into a default or a
+            // pre-sized table) so that a defect of a bulk operation is attributed to the history
+            // operation that used it, not to the comparison partner.
+            let build = |list: &[Row], how: usize| -> C {
+                let mut d = match how % 3 {
+                    0 => C::default(),
+                    1 => C::with_cap(list.len()),
+                    _ => C::with_cap(3 * list.len() + 5),
+                };
+                for r in list {
+                    d.insert(S::mk(*r));
+                }
+                d
+            };
+            let how = rng.below(3);
+            let judge = |divs: &mut Vec<Div>, evals: &mut u64, d: &C, want: bool, kind_t: &'static str, kind_f: &'static str, what: String| {
+                *evals += 2;
+                match catch(|| (c.eq_(d), d.eq_(c))) {
+                    Err(p) => divs.push((0, "panic-in-eq", p)),
+                    Ok((Some(a), Some(b))) => {
+                        if want && !(a && b) {
+                            divs.push((12, kind_f, format!("{what}: self==other {a}, other==self {b}")));
+                        }
+                        if !want && (a || b) {
+                            divs.push((13, kind_t, format!("{what}: self==other {a}, other==self {b}")));
+                        }
+                    }
+                    Ok(_) => {}
+                }
+            };
+            match catch(|| build(&list, how)) {
+                Err(p) => divs.push((0, "panic-building-second-instance", p)),
+                Ok(d) => judge(divs, &mut evals, &d, true, "eq-true-for-different", "eq-false-for-equal", format!("second instance built by inserting the permutation {list:?} (table mode {how})")),
+            }
+            // one more
+            let extra = *rng.choose(probe);
+            if !(C::IS_SET && m.contains_key(&extra)) {
+                let mut l2 = list.clone();
+                l2.push(extra);
+                if let Ok(d) = catch(|| build(&l2, how + 1)) {
+                    judge(divs, &mut evals, &d, false, "eq-true-for-different", "eq-false-for-equal", format!("other holds one extra {extra:?}"));
+                }
+            }
+            if !list.is_empty() {
+                // one fewer
+                let mut l2 = list.clone();
+                let gone = l2.pop().unwrap();
+                if let Ok(d) = catch(|| build(&l2, how + 2)) {
+                    judge(divs, &mut evals, &d, false, "eq-true-for-different", "eq-false-for-equal", format!("other lacks one {gone:?}"));
+                }
+                // same length, different content: replace one occurrence by another tuple
+                let mut l3 = list.clone();
+                let i = rng.below(l3.len());
+                let old = l3[i];
+                let cands: Vec<Row> = probe.iter().copied().filter(|r| *r != old && !(C::IS_SET && m.contains_key(r))).collect();
+                if !cands.is_empty() {
+                    l3[i] = *rng.choose(&cands);
+                    let differs = multiset(l3.iter().copied()) != *m;
+                    if differs {
+                        if let Ok(d) = catch(|| build(&l3, how)) {
+                            judge(divs, &mut evals, &d, false, "eq-true-for-different-same-len", "eq-false-for-equal", format!("other has {:?} instead of one {old:?} (same len)", l3[i]));
+                        }
+                    }
+                }
+            }
+        }
+        evals
+    }
+}
+
+fn case_json<S: Sch, C: Coll<S>>(family: &str, ops: &[Op]) -> Value {
+    json!({"engine":"mon_variadics","family":family,"collection":C::NAME,"hasher":C::HASHER,"schema":S::NAME,
+           "ops": ops.iter().map(|o| o.to_json(S::ARITY)).collect::<Vec<_>>()})
+}
+
+thread_local! {
+    static PRINTED: std::cell::RefCell<BTreeMap<String, u32>> = const { std::cell::RefCell::new(BTreeMap::new()) };
+}
+
+/// Report the most significant divergence of one step (fixed priority → stable signature).
+fn report<S: Sch, C: Coll<S>>(rep: &mut Reporter, family: &str, ops: &[Op], divs: &mut Vec<Div>) -> bool {
+    if divs.is_empty() {
+        return false;
+    }
+    divs.sort_by_key(|d| d.0);
+    let (_, kind, what) = &divs[0];
+    let op = ops.last().map(|o| o.kind()).unwrap_or("new");
+    let sig = format!("C10|{}|after-{}|{}", C::NAME, op, kind);
+    let others: Vec<&str> = divs.iter().skip(1).map(|d| d.1).collect();
+    // the reporter prints only the first three per signature: do not build descriptors for the rest
+    let printed = PRINTED.with(|p| {
+        let mut p = p.borrow_mut();
+        let n = p.entry(sig.clone()).or_insert(0);
+        *n += 1;
+        *n <= 3
+    });
+    if !printed {
+        rep.violation(&sig, "", Value::Null);
+        divs.clear();
+        return true;
+    }
+    rep.violation(
+        &sig,
+        &format!("{} over {} [{}], after op #{} ({}): {}{}", C::NAME, S::NAME, C::HASHER, ops.len(), op, what, if others.is_empty() { String::new() } else { format!(" (also: {})", others.join(", ")) }),
+        case_json::<S, C>(family, ops),
+    );
+    divs.clear();
+    true
+}
+
+/// Run one complete history with full observation after every operation. Returns false after the
+/// first violating step (later steps would only repeat it).
+fn run_history<S: Sch, C: Coll<S>>(rep: &mut Reporter, family: &str, ops: &[Op], probe: &[Row]) -> bool {
+    let mut st = St::<S, C>::new();
+    let mut rng = Rng::new(hash_of(&(C::NAME, S::NAME, ops)));
+    let mut divs = vec![];
+    let n = st.observe(probe, &mut rng, true, &mut divs);
+    rep.evals(n);
+    if report::<S, C>(rep, family, &[], &mut divs) {
+        return false;
+    }
+    for i in 0..ops.len() {
+        st.apply(&ops[i], &mut divs);
+        rep.eval();
+        let n = st.observe(probe, &mut rng, true, &mut divs);
+        rep.evals(n);
+        if report::<S, C>(rep, family, &ops[..=i], &mut divs) {
+            return false;
+        }
+    }
+    rep.count(&format!("histories:{}:{}", C::NAME, S::NAME));
+    if st.dup_offered && st.max_distinct >= 2 {
+        rep.nontrivial(hash_of(&(C::NAME, C::HASHER, S::NAME, ops)));
+        rep.count("histories_with_duplicate_and_2_distinct");
+        rep.sample(|| case_json::<S, C>(family, ops));
+    }
+    true
+}
+
+// ---------------------------------------------------------------------------------------------
+// family 1: exhaustive histories over {0,1}^k
+
+fn alphabet<S: Sch>() -> Vec<Op> {
+    let dom = domain::<S>(2);
+    let mut a: Vec<Op> = dom.iter().map(|r| Op::Insert(*r)).collect();
+    a.push(Op::Extend(dom.clone(), true));
+    a.push(Op::Extend(vec![dom[0], dom[0], dom[dom.len() - 1]], false));
+    a.push(Op::Extend(vec![dom[dom.len() - 1], dom[dom.len() - 1]], true));
+    a.push(Op::Drain);
+    a.push(Op::DrainPartial(1));
+    a.push(Op::Clone);
+    let mut f = dom.clone();
+    f.push(dom[0]);
+    a.push(Op::FromIter(f));
+    a
+}
+
+fn dfs<S: Sch, C: Coll<S>>(rep: &mut Reporter, st: &St<S, C>, ops: &mut Vec<Op>, alpha: &[Op], probe: &[Row], depth: usize, rng: &mut Rng, bad: &mut u64) {
+    if depth == 0 {
+        return;
+    }
+    for op in alpha {
+        let mut st2 = st.clone();
+        let mut divs = vec![];
+        ops.push(op.clone());
+        st2.apply(op, &mut divs);
+        rep.eval();
+        let n = st2.observe(probe, rng, true, &mut divs);
+        rep.evals(n);
+        rep.count(&format!("exhaustive_nodes:{}", C::NAME));
+        if report::<S, C>(rep, "exhaustive", ops, &mut divs) {
+            *bad += 1; // do not extend a history that already diverged
+        } else {
+            if st2.dup_offered && st2.max_distinct >= 2 {
+                rep.nontrivial(hash_of(&(C::NAME, C::HASHER, S::NAME, &*ops)));
+                if depth == 1 {
+                    rep.sample(|| case_json::<S, C>("exhaustive", ops));
+                }
+            }
+            dfs(rep, &st2, ops, alpha, probe, depth - 1, rng, bad);
+        }
+        ops.pop();
+    }
+}
+
+fn exhaustive<S: Sch, C: Coll<S>>(rep: &mut Reporter, args: &Args, depth: usize, case_no: &mut usize) {
+    *case_no += 1;
+    if !args.in_shard(*case_no) {
+        return;
+    }
+    let alpha = alphabet::<S>();
+    let probe = domain::<S>(2);
+    let st = St::<S, C>::new();
+    let mut rng = Rng::new(args.seed ^ hash_of(&(C::NAME, C::HASHER, S::NAME)));
+    let mut bad = 0;
+    dfs(rep, &st, &mut vec![], &alpha, &probe, depth, &mut rng, &mut bad);
+    rep.count("exhaustive_families");
+}
+
+// ---------------------------------------------------------------------------------------------
+// family 2: growth sweep — existing n elements, extend by k elements, across resize thresholds
+
+fn sweep_cell<S: Sch, C: Coll<S>>(rep: &mut Reporter, n: usize, k: usize, build: usize, content: usize, exact: bool) -> bool {
+    let existing: Vec<Row> = (0..n).map(nth_row::<S>).collect();
+    let ext: Vec<Row> = match content {
+        0 => (0..k).map(|i| nth_row::<S>(n + i)).collect(), // all fresh
+        1 => (0..k).map(|i| if i % 2 == 0 && n > 0 { nth_row::<S>((i / 2) % n) } else { nth_row::<S>(n + i) }).collect(), // half duplicates
+        _ => (0..k).map(|i| if n > 0 { nth_row::<S>(i % n) } else { nth_row::<S>(0) }).collect(), // only already-present (or one) tuple
+    };
+    let mut ops: Vec<Op> = match build {
+        0 => existing.iter().map(|r| Op::Insert(*r)).collect(),
+        1 => vec![Op::Extend(existing.clone(), true)],
+        _ => {
+            let mut v = vec![Op::NewWithCap(n)];
+            v.extend(existing.iter().map(|r| Op::Insert(*r)));
+            v
+        }
+    };
+    ops.push(Op::Extend(ext.clone(), exact));
+    // afterwards every existing tuple is touched again: a lost entry would now be duplicated
+    if n > 0 {
+        ops.push(Op::Insert(existing[0]));
+    }
+    let mut probe: Vec<Row> = existing.clone();
+    probe.extend((0..k).map(|i| nth_row::<S>(n + i)));
+    probe.push(nth_row::<S>(n + k + 1)); // never inserted
+    probe.push(nth_row::<S>(n + k + 2));
+
+    // light path: observe only after the final extend and after the re-insert
+    let mut st = St::<S, C>::new();
+    let mut rng = Rng::new(hash_of(&(n, k, build, content)));
+    let mut divs = vec![];
+    let first_obs = ops.len() - if n > 0 { 2 } else { 1 };
+    for i in 0..ops.len() {
+        st.apply(&ops[i], &mut divs);
+        rep.eval();
+        if i >= first_obs || !divs.is_empty() {
+            let ev = st.observe(&probe, &mut rng, i == first_obs, &mut divs);
+            rep.evals(ev);
+            if report::<S, C>(rep, "growth-sweep", &ops[..=i], &mut divs) {
+                return false;
+            }
+        }
+    }
+    if n > 0 && k > 0 {
+        rep.nontrivial(hash_of(&(C::NAME, C::HASHER, S::NAME, n, k, build, content, exact)));
+    }
+    true
+}
+
+fn sweep<S: Sch, C: Coll<S>>(rep: &mut Reporter, args: &Args, case_no: &mut usize) {
+    let miri = args.tier == Tier::Miri;
+    let mut bad = 0u64;
+    // Under Miri only a handful of cells around the first thresholds (3|4, 7|8, 14|16 entries).
+    let cells: Vec<(usize, usize)> = if miri {
+        vec![(3, 2), (3, 4), (7, 8), (14, 3), (0, 5)]
+    } else {
+        (0..=40).flat_map(|n| (0..=80).map(move |k| (n, k))).collect()
+    };
+    for (n, k) in cells {
+        for build in 0..3 {
+            for content in 0..3 {
+                for exact in [true, false] {
+                    if miri {
+                        *case_no += 1;
+                        if !args.in_shard(*case_no) || (build + content + exact as usize) % 3 != 0 {
+                            continue;
+                        }
+                    }
+                    rep.count(&format!("sweep_cells:{}", C::NAME));
+                    if !sweep_cell::<S, C>(rep, n, k, build, content, exact) {
+                        bad += 1;
+                    }
+                }
+            }
+        }
+    }
+    rep.count("sweep_families");
+    rep.count_n("sweep_cells_diverged", bad);
+}
+
+// ---------------------------------------------------------------------------------------------
+// family 3: random histories over {0..3}^k
+
+fn random_history<S: Sch>(rng: &mut Rng, max_ops: usize) -> Vec<Op> {
+    let dom = domain::<S>(4);
+    // a bias towards few distinct tuples makes duplicates frequent; otherwise the table grows
+    let narrow = rng.chance(1, 3);
+    let pick = |rng: &mut Rng| -> Row {
+        if narrow { dom[rng.below(dom.len().min(5))] } else { *rng.choose(&dom) }
+    };
+    let n = 1 + rng.below(max_ops);
+    let mut ops = vec![];
+    for _ in 0..n {
+        let x = rng.below(100);
+        let op = if x < 40 {
+            Op::Insert(pick(rng))
+        } else if x < 75 {
+            let k = if rng.chance(1, 4) { rng.below(40) } else { rng.below(9) };
+            Op::Extend((0..k).map(|_| pick(rng)).collect(), rng.chance(2, 3))
+        } else if x < 80 {
+            Op::Drain
+        } else if x < 84 {
+            Op::DrainPartial(rng.below(4))
+        } else if x < 90 {
+            let k = rng.below(20);
+            Op::FromIter((0..k).map(|_| pick(rng)).collect())
+        } else if x < 93 {
+            Op::NewWithCap(rng.below(33))
+        } else {
+            Op::Clone
+        };
+        ops.push(op);
+    }
+    ops
+}
+
+// ---------------------------------------------------------------------------------------------
+// dispatch over the 3 schemas x 7 collection types
+
+macro_rules! for_all_types {
+    ($m:ident, $($a:expr),*) => {{
+        for_all_types!(@s $m, S1, $($a),*);
+        for_all_types!(@s $m, S2, $($a),*);
+        for_all_types!(@s $m, S3, $($a),*);
+    }};
+    (@s $m:ident, $S:ty, $($a:expr),*) => {{
+        $m::<$S, VariadicHashSet<$S, RandomState>>($($a),*);
+        $m::<$S, VariadicHashSet<$S, HSip>>($($a),*);
+        $m::<$S, VariadicHashSet<$S, HFirst>>($($a),*);
+        $m::<$S, VariadicCountedHashSet<$S, RandomState>>($($a),*);
+        $m::<$S, VariadicCountedHashSet<$S, HSip>>($($a),*);
+        $m::<$S, VariadicCountedHashSet<$S, HFirst>>($($a),*);
+        $m::<$S, VariadicColumnMultiset<$S>>($($a),*);
+    }};
+}
+
+fn random_one<S: Sch, C: Coll<S>>(rep: &mut Reporter, which: usize, idx: &mut usize, ops_by_schema: &[Vec<Op>; 3]) {
+    if *idx == which {
+        let ops = &ops_by_schema[S::ARITY - 1];
+        let probe = domain::<S>(4);
+        run_history::<S, C>(rep, "random", ops, &probe);
+    }
+    *idx += 1;
+}
+
+fn replay_one<S: Sch, C: Coll<S>>(rep: &mut Reporter, case: &Value, done: &mut bool) {
+    if *done || case["collection"] != C::NAME || case["hasher"] != C::HASHER || case["schema"] != S::NAME {
+        return;
+    }
+    *done = true;
+    let ops: Vec<Op> = case["ops"].as_array().expect("ops").iter().map(Op::from_json).collect();
+    let mut probe: Vec<Row> = domain::<S>(4);
+    for o in &ops {
+        match o {
+            Op::Insert(r) => probe.push(*r),
+            Op::Extend(v, _) | Op::FromIter(v) => probe.extend(v.iter().copied()),
+            _ => {}
+        }
+    }
+    probe.sort();
+    probe.dedup();
+    if run_history::<S, C>(rep, case["family"].as_str().unwrap_or("replay"), &ops, &probe) {
+        eprintln!("replay: no divergence");
+    }
+}
+
 fn main() {
-    let args = vcommon::Args::parse();
+    let args = Args::parse();
     if args.prop == "NONE" {
         return;
     }
-    eprintln!("not implemented yet");
-    std::process::exit(3);
+    let mut rep = Reporter::new("C10", args.seed);
+    if let Some(case) = args.replay_case() {
+        let mut done = false;
+        for_all_types!(replay_one, &mut rep, &case, &mut done);
+        if !done {
+            eprintln!("replay: unknown collection/hasher/schema in case");
+            std::process::exit(3);
+        }
+        rep.finish("replay", false);
+        return;
+    }
+    let miri = args.tier == Tier::Miri;
+    let mut rng = args.rng();
+
+    // (1) exhaustive histories over {0,1}^k, all operations of the alphabet, every prefix observed
+    let t0 = std::time::Instant::now();
+    let depth = args.budget(4, 5, 2);
+    let mut case_no = 0usize;
+    for_all_types!(exhaustive, &mut rep, &args, depth, &mut case_no);
+    let t1 = t0.elapsed().as_secs_f64();
+
+    // (2) growth sweep: the full 41 x 81 grid x 3 ways to build the existing content x 3 kinds of
+    //     extension content x 2 size-hint behaviours
+    let mut case_no = 0usize;
+    for_all_types!(sweep, &mut rep, &args, &mut case_no);
+
+    let t2 = t0.elapsed().as_secs_f64();
+    // (3) random histories
+    let n_random = args.budget(5_000, 200_000, 6);
+    for i in 0..n_random {
+        let which = rng.below(21);
+        let ops = [random_history::<S1>(&mut rng, 30), random_history::<S2>(&mut rng, 30), random_history::<S3>(&mut rng, 30)];
+        if miri && !args.in_shard(i) {
+            continue;
+        }
+        let mut idx = 0usize;
+        for_all_types!(random_one, &mut rep, which, &mut idx, &ops);
+    }
+
+    rep.extra("phase_seconds", json!({"exhaustive": t1, "sweep": t2 - t1, "random": t0.elapsed().as_secs_f64() - t2}));
+    if !miri {
+        rep.require(rep.counter("exhaustive_families") == 21, "not all 21 collection x schema x hasher combinations enumerated");
+        rep.require(rep.counter("sweep_families") == 21, "growth sweep did not visit all 21 combinations");
+        for name in ["VariadicHashSet", "VariadicCountedHashSet", "VariadicColumnMultiset"] {
+            let per = if name == "VariadicColumnMultiset" { 3 } else { 9 };
+            rep.require(rep.counter(&format!("sweep_cells:{name}")) == 41 * 81 * 18 * per, &format!("growth sweep grid incomplete for {name}"));
+        }
+        rep.require(rep.counter("histories_with_duplicate_and_2_distinct") >= 500 || rep.violations() > 0, "fewer than 500 random histories offered a duplicate and reached 2 distinct tuples");
+    }
+    rep.finish(
+        "three families on VariadicHashSet / VariadicCountedHashSet (each with RandomState, SipHash with fixed keys and a hostile first-byte-only hasher) and VariadicColumnMultiset over schemas (u8,), (u8,u8), (u8,u16,u8): (1) every history of <= D operations (D = 4 quick / 5 thorough) from an alphabet of all single inserts over {0,1}^k, three extends, drain, partial drain, clone, from_iter; (2) growth sweep: 0..=40 existing distinct tuples x extend by 0..=80 tuples (full grid) x {built by inserts, by one extend, with_capacity} x {fresh, half duplicates, only duplicates} x {exact, zero} size hint; (3) random histories of <= 30 operations over {0..3}^k. After every operation: len, is_empty, contains and get for every tuple of the domain, iter and into_iter multisets, == against a second instance built from a permutation and against three near misses. Non-trivial = a history (or sweep cell with existing>0 and extension>0) that offered an already-present tuple again and held >= 2 distinct tuples",
+        true,
+    );
 }
